@@ -45,13 +45,9 @@ class GotranPythonCodePrinter(PythonCodePrinter):
     def _print_Pow(self, expr, rational=False):
         # A conditional with integer values is printed as the integer array
         # numpy.where(c, 4, 3), and numpy refuses to raise integers to negative
-        # integer powers (jax.numpy returns 0). Use a real exponent
-        if (
-            expr.exp.is_number
-            and expr.exp.is_integer
-            and expr.exp.is_negative
-            and expr.base.has(sympy.Piecewise)
-        ):
+        # integer powers (jax.numpy returns 0). The base may also be the name of
+        # such a quantity, so always use a real exponent
+        if expr.exp.is_number and expr.exp.is_integer and expr.exp.is_negative:
             expr = sympy.Pow(expr.base, sympy.Float(int(expr.exp)), evaluate=False)
         return super()._print_Pow(expr, rational=rational)
 
